@@ -66,6 +66,10 @@ SPEC = {
         'coopSampleS_other_factor', 'coop_rewards_sum', 'coop_same_state', 'coop_reward_independent_of_draws',
         'dirichlet_valid', 'dirichlet_isProb', 'dirichlet_valid_nonneg', 'dirichlet_all_zero_invalid', 'dirichlet_scale_invariant',
         'beta_in_unit', 'beta_complement', 'beta_eq_dirichlet',
+        # joint distributions: the draw vectors mapped to an outcome form a box whose volume is the product of the table entries
+        'sampleSOR_box', 'sampleSOR_box_area', 'sampleSORSparse_box', 'coopSampleS_box', 'ddnTransitionProbability_nonneg',
+        # exact-arithmetic justification of fixes/C08-4 (scale by the largest entry, then normalise)
+        'normalize_scaled_eq',
     ]],
     'harness': 'harness/c08.cpp',
     'harness_flags': _harness_flags(),
